@@ -390,6 +390,17 @@ fn composite<C: Suite, T: Wire + PartialEq + std::fmt::Debug>(v: &T, tag: &str, 
                         return Some(Violation::new("C12", "C12.wrong_version_accepted", format!("{name} (binary): format version {ver} accepted")));
                     }
                 }
+                // the version field re-spelled as a padded variable-length integer (80 00 = "0" in two bytes, 80 80 00, 81 00 = "1" ...):
+                // the first byte is then a format version >= 0x80, and the string does not re-encode to itself
+                for spelling in [&[0x80u8, 0x00][..], &[0x80, 0x80, 0x00], &[0x81, 0x00], &[0x80, 0x01], &[0xff, 0x7f], &[0x80, 0x80, 0x80, 0x00]] {
+                    let mut c = spelling.to_vec();
+                    c.extend_from_slice(&b[1..]);
+                    sw.decodes += 1;
+                    sw.rep.probe("version_fault");
+                    if dec::<T>(fmt, &c).is_ok() {
+                        return Some(Violation::new("C12", "C12.wrong_version_accepted", format!("{name} (binary): format version spelled as the padded variable-length integer {} accepted (the canonical header starts with the single byte 00)", hexs(spelling))));
+                    }
+                }
                 for other in OTHER_IDS.iter().filter(|o| **o != C::ID) {
                     let mut c = b.clone();
                     c[1..5].copy_from_slice(&crc32(other.as_bytes()).to_be_bytes());
